@@ -12,6 +12,7 @@ package logic
 import (
 	"encoding/binary"
 	"fmt"
+	"sort"
 	"testing"
 )
 
@@ -121,6 +122,12 @@ func vCraft(v uint64, mode RunMode, opcode byte, spec *OpSpec, sub int, fimm int
 			pushes = append(pushes, push{false, len(bytess) - 1})
 		}
 	}
+	for len(ints) < 4 {
+		ints = append(ints, 0)
+	}
+	for len(bytess) < 4 {
+		bytess = append(bytess, []byte("a"))
+	}
 	prog = append(prog, 0x20)
 	prog = append(prog, vUvarint(uint64(len(ints)))...)
 	for _, i := range ints {
@@ -144,6 +151,9 @@ func vCraft(v uint64, mode RunMode, opcode byte, spec *OpSpec, sub int, fimm int
 		case "itxn", "itxna", "itxnas", "gitxn", "gitxna", "gitxnas":
 			prog = append(prog, 0xb1, 0x22, 0xb2, byte(TypeEnum), 0xb3) // begin; pay; submit
 		}
+	}
+	if spec != nil && spec.Name == "bury" {
+		prog = append(prog, 0x22) // one more item for bury 1 to overwrite
 	}
 	for _, p := range pushes {
 		if p.isInt {
@@ -225,6 +235,9 @@ func (t *vTargetTracer) AfterOpcode(cx *EvalContext, err error) {
 	t.touched = t.ledger.n != t.touch0
 }
 
+var vExecuted = map[string]int{}   // op name -> number of (v, mode, field) combinations executed without error
+var vFieldStats = map[string]int{} // allowed-and-executed / allowed-but-failed / disallowed (Go-side view of the field tables)
+
 func vRunX(out *vOut, st map[string]int, v uint64, mode RunMode, prog []byte, tpc int) {
 	lsv := uint64(LogicVersion)
 	const budget = 60000
@@ -246,6 +259,16 @@ func vRunX(out *vOut, st map[string]int, v uint64, mode RunMode, prog []byte, tp
 		m = 2
 	}
 	out.Case(vSym("x"), v, m, lsv, prog, tpc, ckb, chk, tstack, tr.rem, tr.cls, tr.touched)
+	if tr.seen {
+		if sp := (&EvalContext{EvalParams: env.ep, program: prog, pc: tpc, version: v}).GetOpSpec(); sp.op != nil {
+			if _, ok := vExecuted[sp.Name]; !ok {
+				vExecuted[sp.Name] = 0
+			}
+			if tr.cls == 0 {
+				vExecuted[sp.Name]++
+			}
+		}
+	}
 	switch {
 	case !tr.seen:
 		st["x_target_not_reached"]++
@@ -338,6 +361,15 @@ func TestVerifC34(t *testing.T) {
 	for k, n := range st {
 		stats[k] = n
 	}
+	var never []string
+	for name, n := range vExecuted {
+		if n == 0 {
+			never = append(never, name)
+		}
+	}
+	sort.Strings(never)
+	stats["x_ops_never_executed_successfully"] = never
+	stats["x_ops_executed_successfully"] = len(vExecuted) - len(never)
 	vStats(stats)
 }
 
